@@ -189,12 +189,17 @@ def r_stream(cls: str, opts):
     return stream_class(cls).for_rdflib(options=opts)
 
 
-def r_graph(seq, bindings=()):
+EMPTY_GRAPHS = ("http://b#empty", "http://zz/empty2")
+
+
+def r_graph(seq, bindings=(), empty=()):
     """Graph for triples, Dataset for quads (explicit labels, no default bindings lost)."""
     import rdflib  # noqa: PLC0415
 
     if seq and len(seq[0]) == 4:
         ds = rdflib.Dataset()
+        for e in empty:
+            ds.graph(rdflib.URIRef(e))  # registered, stays empty
         for p, iri in bindings:
             ds.bind(p, rdflib.URIRef(iri), override=True, replace=True)
         for st in seq:
@@ -229,7 +234,8 @@ def r_write(seq, cls: str, opts, entry: str = "stream_frames_gen", bindings=()) 
         out = io.BytesIO()
         rser.flat_stream_to_file((s for s in stmts), out, opts)
         return out.getvalue()
-    g = r_graph(seq, bindings)
+    g = r_graph(seq, bindings, EMPTY_GRAPHS if entry.endswith("+empty") else ())
+    entry = entry.split("+")[0]
     if entry == "stream_frames_graph":
         return frames_to_bytes(rser.stream_frames(r_stream(cls, opts), g), delimited)
     if entry == "graph_serialize_stream":
